@@ -202,6 +202,17 @@ func (n *native) raceConfirm(pkg, file, key string, runs int) (bool, string) {
 		n.bins[pkg+"#race"] = bin
 		n.Build += time.Since(t0).Seconds()
 	}
+	// free-running goroutines: the forced-schedule hand-offs would add happens-before edges that
+	// hide the race from the detector, so the schedule trace is stripped from the replay file
+	if data, err := os.ReadFile(file); err == nil {
+		var rf replayFile
+		if json.Unmarshal(data, &rf) == nil {
+			rf.Sched = nil
+			free := filepath.Join(n.dir, fmt.Sprintf("free-%d.json", time.Now().UnixNano()))
+			writeJSON(free, rf)
+			file = free
+		}
+	}
 	list := filepath.Join(n.dir, fmt.Sprintf("racelist-%d.txt", time.Now().UnixNano()))
 	var sb strings.Builder
 	for i := 0; i < runs; i++ {
@@ -620,7 +631,11 @@ func runProperty(prop string, ps *propSpec, opt options) int {
 				if v.Kind == "race" && len(v.Known) == 1 {
 					okNat, how := raceSeenNative[v.Known[0]], raceHow[v.Known[0]]
 					if how == "" {
-						okNat, how = nat.raceConfirm(hs.Pkg, p, v.Known[0], 150)
+						runs := 150
+						if _, listed := activeKF[v.Known[0]]; !listed {
+							runs = 3000 // an unlisted race must be re-observed natively before it is reported
+						}
+						okNat, how = nat.raceConfirm(hs.Pkg, p, v.Known[0], runs)
 						raceSeenNative[v.Known[0]], raceHow[v.Known[0]] = okNat, how
 						fmt.Printf("  race %s: %s\n", v.Known[0], how)
 						ev.RaceNative = append(ev.RaceNative, v.Known[0]+": "+how)
